@@ -38,6 +38,7 @@ THEOREMS = [
     "C09_same_meaning",
     "C09_fill_complex_refused",
     "C09_history_wf",
+    "C09_history_trees",
     "C09_history",
     "C09_load_aligned",
     "C09_load_redundant",
@@ -45,6 +46,7 @@ THEOREMS = [
     "C09_imp_data_aligned",
     "C09_imp_refused",
     "C09_imp_data_once",
+    "C09_imp_shared_tree_refuted",
 ]
 
 CLASSES = ci.CLASSES
@@ -78,17 +80,30 @@ def small_texts():
     out.append(SMALL.format(c1="imp:n=1 imp:p=1 u=-2", c2="imp:n=2 imp:p=1", c3="imp:n=0 imp:p=0", data="vol no 2j 7\nfill j 2\n"))
     out.append(SMALL.format(c1="imp:n,p=1", c2="imp:n,p=1 u=0", c3="imp:n,p=0", data=""))
     out.append(SMALL.format(c1="u=5", c2="u=5 lat=2 fill=6", c3="u=6", data="imp:n 1 2r\nimp:p 1 1 0\n"))
+    # importance shapes: shared entries on every cell / some cells, three particles, shared data-block cards
+    out.append(SMALL.format(c1="imp:n,p=1", c2="imp:n,p=2", c3="imp:n,p=0", data=""))
+    out.append(SMALL.format(c1="imp:n,p,e=1", c2="imp:n,p,e=1 vol=2", c3="imp:n,p,e=0", data="").replace("mode n p", "mode n p e"))
+    out.append(SMALL.format(c1="imp:n,p=1 imp:e=2", c2="imp:n=1 imp:p,e=3", c3="imp:n,p,e=0", data="").replace("mode n p", "mode n p e"))
+    out.append(SMALL.format(c1="", c2="vol=2", c3="", data="imp:n,p,e 1 2 0\n").replace("mode n p", "mode n p e"))
+    out.append(SMALL.format(c1="", c2="", c3="u=3", data="imp:n,e 1 1 0\nimp:p 2 2 0\n").replace("mode n p", "mode n p e"))
     return out
 
 
-def gen_ops(rng, ncells, mode, numbers, unis, nsurf, length=None):
-    """a VALID history: cell insertions, deletions, reorderings and per-cell data edits"""
+def gen_ops(rng, ncells, mode, numbers, unis, nsurf, length=None, imp_bias=0.0):
+    """a VALID history: cell insertions, deletions, reorderings, per-cell data edits and observations"""
     n = ncells
     ops = []
     used = set(numbers)
     unis = list(unis) or [7]
     for _ in range(length if length is not None else rng.randint(1, 5)):
         r = rng.random()
+        if rng.random() < imp_bias:
+            # a per-cell importance edit that makes one particle differ from the others / equal to them again
+            ops.append(["imp", rng.randrange(n), rng.choice(mode), float(rng.choice([0, 1, 2, 3, 8, 0.5]))])
+            continue
+        if rng.random() < 0.06:
+            ops.append(["observe", rng.randrange(n)])
+            continue
         if r < 0.18:
             num = max(used) + rng.randint(1, 5)
             used.add(num)
@@ -129,8 +144,43 @@ def gen_ops(rng, ncells, mode, numbers, unis, nsurf, length=None):
     return ops
 
 
+def shape_importances(rng, gp):
+    """importance shapes the placement logic is sensitive to: three-particle modes, particles with equal vectors
+    (printed together on one data-block card), entries shared by several particles on every cell / some cells"""
+    r = rng.random()
+    if r < 0.35:
+        return "default"
+    if rng.random() < 0.5 and "e" not in gp["mode"]:
+        gp["mode"] = gp["mode"] + ["e"]
+        if "p" not in gp["mode"] and rng.random() < 0.5:
+            gp["mode"].insert(1, "p")
+    mode = gp["mode"]
+    for c in gp["cells"]:
+        for m in mode:
+            c["imp"].setdefault(m, float(rng.choice([0, 1, 1, 2, 4])))
+    if len(mode) < 2:
+        return "default"
+    kind = rng.choice(["all-equal", "all-equal", "two-equal", "per-cell-groups"])
+    if kind == "all-equal":
+        for c in gp["cells"]:
+            for m in mode:
+                c["imp"][m] = c["imp"][mode[0]]
+    elif kind == "two-equal":
+        a, b = rng.sample(mode, 2)
+        for c in gp["cells"]:
+            c["imp"][b] = c["imp"][a]
+    else:
+        for c in gp["cells"]:
+            if rng.random() < 0.6:
+                a, b = rng.sample(mode, 2)
+                c["imp"][b] = c["imp"][a]
+    gp["imp_share"] = rng.choice(["always", "always", None, "never"])
+    return kind + ":" + str(gp["imp_share"])
+
+
 def gen_problem(rng):
     gp = genprob.generate(rng, features=FEATURES)
+    shape_importances(rng, gp)
     style = "plain" if rng.random() < 0.85 else "random"
     limit = 128 if rng.random() < 0.8 else 80
     text = genprob.render(gp, rng, limit, style)
@@ -149,26 +199,37 @@ def gen_cases(chk):
         for c in d.get("cases", [d.get("case")] if d.get("case") else []):
             cases.append(dict(c, src="corpus:" + os.path.basename(f)))
     ncorpus = len(cases)
-    # 2. small hand-made shapes: all 32 flag vectors x every single operation of a small alphabet (exhaustive)
+    # 2. small hand-made shapes x every single operation of a small alphabet x all 32 flag vectors (exhaustive):
+    #    flags, WRITE, the operation, WRITE again — the object model after a write must still write a correct file
     alphabet = [[], [["remove", 0]], [["remove", 1]], [["move_end", 0]], [["reorder", [2, 0, 1]]],
-                [["append", {"number": 9, "surf": 0, "imp": {"n": 1.0, "p": 2.0}, "vol": 4.0, "u": 2, "fill": None, "lat": None}]],
+                [["append", {"number": 9, "surf": 0, "imp": {"n": 1.0, "p": 2.0, "e": 2.0}, "vol": 4.0, "u": 2, "fill": None, "lat": None}]],
                 [["append", {"number": 9, "surf": 0, "imp": {"n": 1.0}, "vol": None, "u": None, "fill": None, "lat": None}]],
-                [["imp", 1, "p", 3.0]], [["vol", 1, 2.0]], [["del_vol", 0]], [["u", 2, 2]], [["u", 0, 9]], [["fill", 0, 2]],
-                [["fill", 1, None]], [["lat", 2, 2]], [["lat", 1, None]], [["vol_calc", False]], [["imp_all", 0, 2.0]]]
+                [["imp", 1, "p", 3.0]], [["imp", 2, "n", 8.0]], [["imp", 0, "e", 5.0]], [["vol", 1, 2.0]], [["del_vol", 0]],
+                [["u", 2, 2]], [["u", 0, 9]], [["fill", 0, 2]],
+                [["fill", 1, None]], [["lat", 2, 2]], [["lat", 1, None]], [["vol_calc", False]], [["imp_all", 0, 2.0]],
+                [["observe", 1]]]
     nsmall = 0
-    for text in small_texts():
+    few_flags = [[i, a, b, b, b] for i in (False, True) for a in (False, True) for b in (False, True)]
+    for nshape, text in enumerate(small_texts()):
+        three = "mode n p e" in text
         for ops in alphabet:
-            for fl in ALL_FLAGS:
-                cases.append({"text": text, "limit": 128, "ops": ops + [["flags", fl], ["write"]], "src": "small"})
+            ops = [o if o[0] != "append" or three else ["append", dict(o[1], imp={k: v for k, v in o[1]["imp"].items() if k != "e"})] for o in ops]
+            if not three and any(o[0] == "imp" and o[2] == "e" for o in ops):
+                continue
+            # the first six shapes under all 32 flag vectors; the importance shapes under 8 (IMP x VOL x the rest)
+            for fl in (ALL_FLAGS if nshape < 6 else few_flags):
+                cases.append({"text": text, "limit": 128, "ops": [["flags", fl], ["write"]] + ops + [["write"]], "src": "small"})
                 nsmall += 1
-    # 3. MontePy's own fixtures: every flag vector
+    # 3. MontePy's own fixtures: every flag vector, then the opposite vector, then back (switching back and forth)
     nfix = 0
     fx = fixtures()
     for name, text in fx:
         for fl in (ALL_FLAGS if chk.thorough else ALL_FLAGS[:: 3] + [ALL_FLAGS[-1]]):
-            cases.append({"text": text, "limit": 128, "ops": [["flags", fl], ["write"]], "src": "fixture:" + name})
+            inv = [not b for b in fl]
+            cases.append({"text": text, "limit": 128, "ops": [["flags", fl], ["write"], ["flags", inv], ["write"], ["flags", fl], ["write"]],
+                          "src": "fixture:" + name})
             nfix += 1
-    # 4. generated problems x histories x ALL 32 flag vectors
+    # 4. generated problems x histories x ALL 32 flag vectors: history, flags, WRITE, further edits, WRITE (, flags, WRITE)
     rng = chk.rng("problems")
     nprob = chk.pick(48, 1400)
     ngen = 0
@@ -176,23 +237,37 @@ def gen_cases(chk):
         text, limit, info = gen_problem(rng)
         ops = gen_ops(rng, info["ncells"], info["mode"], info["numbers"], info["unis"], info["nsurf"],
                       length=0 if i % 4 == 0 else None)
+        n = info["ncells"] + sum(1 if o[0] == "append" else -1 if o[0] == "remove" else 0 for o in ops)
+        nums = info["numbers"] + [o[1]["number"] for o in ops if o[0] == "append"]
+        ops_b = gen_ops(rng, n, info["mode"], nums, info["unis"], info["nsurf"], length=rng.randint(1, 2), imp_bias=0.5)
+        tail = []
+        if rng.random() < 0.3:
+            tail = [["flags", [rng.choice([True, False, None]) for _ in CLASSES]], ["write"]]
         for fl in ALL_FLAGS:
-            cases.append({"text": text, "limit": limit, "ops": ops + [["flags", fl], ["write"]], "src": "generated"})
+            cases.append({"text": text, "limit": limit, "ops": ops + [["flags", fl], ["write"]] + ops_b + [["write"]] + tail, "src": "generated"})
             ngen += 1
-    # 5. long histories with several writes: switching back and forth, edits between writes
+    # 5. long histories over {edit, flag change, WRITE, observation}: the flags are sticky (set once, then changed one or
+    #    two at a time now and then), every segment ends in a write, every written file is judged
     rng = chk.rng("histories")
-    nhist = chk.pick(160, 5000)
+    nhist = chk.pick(220, 6000)
     for i in range(nhist):
         text, limit, info = gen_problem(rng)
-        ops = []
+        ops = [["flags", [rng.random() < 0.5 for _ in CLASSES]]]
+        if rng.random() < 0.5:
+            ops.append(["write"])
         n, nums = info["ncells"], list(info["numbers"])
-        for _ in range(rng.randint(2, 4)):
-            seg = gen_ops(rng, n, info["mode"], nums + [o[1]["number"] for o in ops if o[0] == "append"], info["unis"], info["nsurf"], length=rng.randint(0, 3))
+        for _ in range(rng.randint(2, 5)):
+            seg = gen_ops(rng, n, info["mode"], nums + [o[1]["number"] for o in ops if o[0] == "append"], info["unis"], info["nsurf"],
+                          length=rng.randint(0, 3), imp_bias=0.35)
             for o in seg:
                 n += 1 if o[0] == "append" else -1 if o[0] == "remove" else 0
             ops += seg
-            fl = [rng.choice([True, False, None]) for _ in CLASSES]
-            ops += [["flags", fl], ["write"]]
+            if rng.random() < 0.35:
+                fl = [None] * len(CLASSES)
+                for k in rng.sample(range(len(CLASSES)), rng.randint(1, 2)):
+                    fl[k] = rng.random() < 0.5
+                ops.append(["flags", fl])
+            ops.append(["write"])
         cases.append({"text": text, "limit": limit, "ops": ops, "src": "history"})
     chk.units["U-celldata"] = {"corpus": ncorpus, "small_exhaustive": nsmall, "fixtures": nfix, "generated_x32": ngen,
                                "histories": nhist, "fixture_files": len(fx)}
@@ -214,7 +289,8 @@ def model_cell(c):
 
 def model_state_json(s):
     return {"cells": [model_cell(c) for c in s["cells"]], "mode": [_pc(m) for m in s["mode"]], "flags": s["flags"],
-            "vol_calc": s["vol_calc"], "data_inputs": s["data_inputs"]}
+            "vol_calc": s["vol_calc"], "data_inputs": s["data_inputs"],
+            "real_tree": [[_pc(p), t] for p, t in s.get("real_tree", [])]}
 
 
 def model_op(op, pre):
@@ -242,6 +318,8 @@ def model_op(op, pre):
         return ["vol", op[1], ci.frac(op[2])]
     if name == "del_vol":
         return ["vol", op[1], None]
+    if name == "observe":
+        return ["observe"]
     return op
 
 
@@ -273,6 +351,15 @@ def canon_state(s, model):
             ntr = c["ntr_raw"]
         cells.append((c["number"], tuple(imp), _q(c["vol"]), c["u"], ntr, c["lat"], c["fill"], c["fill_complex"], c["fill_multi"]))
     return (tuple(cells), tuple(s["flags"]), s["vol_calc"])
+
+
+def tree_partition(s, model):
+    """identity of the data-block importance trees as a partition of the particles (which particles share ONE tree
+    object); the order of `_real_tree` and of newly made trees depends on set iteration, a partition does not"""
+    classes = {}
+    for p, t in s.get("real_tree", []):
+        classes.setdefault(t, []).append(p if model else _pc(p))
+    return tuple(sorted(tuple(sorted(c)) for c in classes.values()))
 
 
 def _q(v):
@@ -408,7 +495,7 @@ def judge_case(case, ri, dens):
             cls, datum, detail = v
             if cls == "missing" and st.get("text") and ci.after_terminator(st["text"]):
                 cls = "after-terminator"
-            sig = ci.signature(cls, datum, st["api"], case["ops"][:j])
+            sig = ci.signature(cls, datum, st["api"], case["ops"][:j], error=detail if cls == "write-raised" else None)
             return j, sig, f"{cls} {datum}: {detail}"
     return None
 
@@ -480,15 +567,18 @@ def compare_case(case, ri, dens, rm, nsteps):
     if rm is None or "steps" not in rm:
         return (0, f"model driver: {rm}")
     k = 0
+    trees = True  # tree identity is compared until a write raises (what an error leaves behind is not modelled)
     for j in range(nsteps):
         op, st, sm = case["ops"][j], ri["steps"][j], rm["steps"][j]
+        if op[0] == "write" and st["out"] != "ok":
+            trees = False
         if op[0] == "write":
             den = None
             if "text" in st:
                 den = dens[k]
                 k += 1
-            if st["out"] == "IllegalState":
-                return None  # validate() of an incomplete object: not modelled, the history ends here
+            if st["out"] == "IllegalState" or (st["out"] == "ParticleTypeNotInProblem" and st["api"].get("imp_outside_mode")):
+                return None  # validate() of an incomplete object / importances outside MODE: not modelled, the history ends here
             if st["out"] != "ok":
                 want = "ValueError" if st["out"] == "ValueError:fill-complex" else st["out"]
                 if sm.get("error") != want:
@@ -501,12 +591,18 @@ def compare_case(case, ri, dens, rm, nsteps):
             d = same_cards(cards_of_den(den), cards_of_model(sm["write"]), st["api"])
             if d:
                 return (j, "written cards differ: " + d)
+            if trees and "state_after" in st and "state" in sm:
+                a, b = tree_partition(st["state_after"], False), tree_partition(sm["state"], True)
+                if a != b:
+                    return (j, f"identity of the data-block importance trees after the write differs (particles sharing one tree object): impl {a} model {b}")
         else:
             if sm.get("err") is not None:
                 return (j, f"operation {op[0]} accepted by the code, model raises {sm['err']}")
             a, b = canon_state(st["state"], False), canon_state(sm["state"], True)
             if a != b:
                 return (j, f"state after {op[0]} differs: impl {a} model {b}")
+            if trees and tree_partition(st["state"], False) != tree_partition(sm["state"], True):
+                return (j, f"identity of the data-block importance trees after {op[0]} differs: impl {tree_partition(st['state'], False)} model {tree_partition(sm['state'], True)}")
     return None
 
 
@@ -538,130 +634,134 @@ def run(chk):
 
     cases = gen_cases(chk)
     chk.exhaustive = {"flag_vectors": "all 32 for every generated problem, small shape and (thorough) fixture",
-                      "small_shapes": "6 shapes x 18 single operations x 32 flag vectors"}
+                      "small_shapes": "6 shapes x 21 single operations x 32 flag vectors + 5 importance shapes x 21 x 8, each: flags, write, operation, write"}
     for c in cases:
         c.pop("_", None)
-    impl = pmap(ci.run_impl, [{k: v for k, v in c.items() if k != "src"} for c in cases], chunksize=16)
-    dens = denote_writes(impl)
-    # the READ half: the Spec's reading of every distinct generated / hand-made input
-    in_den = {}
-    for lim in (80, 128):
-        texts = sorted({c["text"] for c in cases if c.get("limit", 128) == lim and c.get("src", "").split(":")[0] in ("small", "generated", "history", "corpus")})
-        for t, d in zip(texts, spec.denote_many(texts, lim) if texts else []):
-            in_den[(lim, t)] = d
+    all_cases = cases
     read_judged = set()
-    built = [build_model_case(c, r) for c, r in zip(cases, impl)]
-    idx = [i for i, b in enumerate(built) if b is not None]
-    model_out = drv.batch([built[i][0] for i in idx]) if drv.ok else None
-    model = {i: model_out[k] for k, i in enumerate(idx)} if model_out is not None else {}
-
     seen_sig = {}
-    for i, (case, ri) in enumerate(zip(cases, impl)):
-        src = case.get("src", "?").split(":")[0]
-        pure = {k: v for k, v in case.items() if k != "src"}
-        chk.count("src:" + src)
-        if ri.get("read") != "ok":
-            chk.count("read:" + ri.get("read", "?"))
-            chk.note_case(pure, False)
-            continue
-        nontrivial = False
-        for op, st in zip(case["ops"], ri["steps"]):
-            chk.count("op:" + op[0])
-            if op[0] == "write":
-                chk.count("write:" + st["out"])
-                fl = st["api"]["flags"]
-                chk.count("flags_true:" + str(sum(fl)))
-                if any(fl) or len(case["ops"]) > 2:
-                    nontrivial = True
-            elif st["out"] != "ok":
-                chk.count("refused:" + op[0] + ":" + st["out"].split(":")[-1])
-        chk.note_case(pure, nontrivial, sample_every=4000)
-        rkey = (pure.get("limit", 128), pure["text"])
-        if rkey in in_den and rkey not in read_judged:
-            read_judged.add(rkey)
-            chk.count("read-judged")
-            rv = judge_read(pure, ri, in_den[rkey])
-            if rv is not None:
-                ri2 = ci.run_impl(dict(pure, ops=[]))  # confirm in this process
-                rv = judge_read(pure, ri2, in_den[rkey])
-                if rv is None:
+    CHUNK = 5000  # bounded memory: results (texts, states) of one chunk at a time
+    for c0 in range(0, len(all_cases), CHUNK):
+        cases = all_cases[c0:c0 + CHUNK]
+        impl = pmap(ci.run_impl, [{k: v for k, v in c.items() if k != "src"} for c in cases], chunksize=16)
+        dens = denote_writes(impl)
+        # the READ half: the Spec's reading of every distinct generated / hand-made input
+        in_den = {}
+        for lim in (80, 128):
+            texts = sorted({c["text"] for c in cases if c.get("limit", 128) == lim and c.get("src", "").split(":")[0] in ("small", "generated", "history", "corpus")})
+            for t, d in zip(texts, spec.denote_many(texts, lim) if texts else []):
+                in_den[(lim, t)] = d
+        built = [build_model_case(c, r) for c, r in zip(cases, impl)]
+        idx = [i for i, b in enumerate(built) if b is not None]
+        model_out = drv.batch([built[i][0] for i in idx]) if drv.ok else None
+        model = {i: model_out[k] for k, i in enumerate(idx)} if model_out is not None else {}
+
+        for i, (case, ri) in enumerate(zip(cases, impl)):
+            src = case.get("src", "?").split(":")[0]
+            pure = {k: v for k, v in case.items() if k != "src"}
+            chk.count("src:" + src)
+            if ri.get("read") != "ok":
+                chk.count("read:" + ri.get("read", "?"))
+                chk.note_case(pure, False)
+                continue
+            nontrivial = False
+            for op, st in zip(case["ops"], ri["steps"]):
+                chk.count("op:" + op[0])
+                if op[0] == "write":
+                    chk.count("write:" + st["out"])
+                    fl = st["api"]["flags"]
+                    chk.count("flags_true:" + str(sum(fl)))
+                    if any(fl) or len(case["ops"]) > 2:
+                        nontrivial = True
+                elif st["out"] != "ok":
+                    chk.count("refused:" + op[0] + ":" + st["out"].split(":")[-1])
+            chk.note_case(pure, nontrivial, sample_every=4000)
+            rkey = (pure.get("limit", 128), pure["text"])
+            if rkey in in_den and rkey not in read_judged:
+                read_judged.add(rkey)
+                chk.count("read-judged")
+                rv = judge_read(pure, ri, in_den[rkey])
+                if rv is not None:
+                    ri2 = ci.run_impl(dict(pure, ops=[]))  # confirm in this process
+                    rv = judge_read(pure, ri2, in_den[rkey])
+                    if rv is None:
+                        chk.count("flaky:violation-not-reproduced")
+                    else:
+                        small = dict(pure, ops=[])
+
+                        def fails_text(t, sig=rv[0], lim=rkey[0]):
+                            c2 = dict(small, text=t)
+                            r = judge_read(c2, ci.run_impl(c2), spec.denote(t, lim))
+                            return r is not None and r[0] == sig
+
+                        try:
+                            t = shrink_text(small["text"], fails_text)
+                            if fails_text(t):
+                                small = dict(small, text=t)
+                        except Exception:  # noqa: BLE001
+                            pass
+                        chk.violation(rv[0], rv[1], {"case": small, "api_after_read": ri2.get("state0")})
+            verdict = judge_case(pure, ri, dens[i])
+            upto = len(ri["steps"])
+            if verdict is not None:
+                upto = verdict[0]
+                key = canon(verdict[1])
+                seen_sig[key] = seen_sig.get(key, 0) + 1
+                if seen_sig[key] > 2:
+                    # the same signature was confirmed (re-run in this process) and reported already: count only
+                    chk.count("violation-occurrences-not-rerun")
+                    verdict = None
+            if verdict is not None:
+                ri2, dens2 = run_one(pure)  # confirm in this process before reporting
+                v2 = judge_case(pure, ri2, dens2)
+                if v2 is None or v2[1] != verdict[1]:
                     chk.count("flaky:violation-not-reproduced")
+                    verdict = None
                 else:
-                    small = dict(pure, ops=[])
+                    j, sig, what = v2
+                    upto = j
+                    small = shrink_case(pure, sig, j) if len(chk.violations) < 3 else pure
+                    r3, d3 = run_one(small)
+                    v3 = judge_case(small, r3, d3)
+                    if v3 is None or v3[1] != sig:
+                        small, v3 = pure, v2
+                    step = r3["steps"][v3[0]] if v3 is not None and small is not pure else ri2["steps"][j]
+                    chk.violation(sig, v3[2] if v3 else what, {"case": small, "written": step.get("text"), "api": step.get("api"), "raised": step["out"]})
+            if i in model:
+                chk.traces_validated += 1
+                nsteps = min(built[i][1], upto)
+                diff = compare_case(pure, ri, dens[i], model[i], nsteps)
+                if diff is not None and chk.dist.get("disagreement-confirmed", 0) >= 4:
+                    chk.count("disagreement-occurrences-not-rerun")
+                    diff = None
+                if diff is not None:
+                    chk.disagreements_checked += 1
+                    chk.count("disagreement:" + diff[1][:60])
+                    ri2, dens2 = run_one(pure)
+                    b2 = build_model_case(pure, ri2)
+                    rm2 = drv.batch([b2[0]])[0] if b2 else None
+                    diff2 = compare_case(pure, ri2, dens2, rm2, min(b2[1], upto)) if b2 else None
+                    if diff2 is None:
+                        chk.count("flaky:disagreement-not-reproduced")
+                        continue
+                    chk.count("disagreement-confirmed")
+                    small = pure
+                    if chk.dist.get("disagreement-confirmed", 0) <= 2:
+                        def differs(ops, pure=pure, last=pure["ops"][diff2[0]:diff2[0] + 1]):
+                            c = dict(pure, ops=ops + last)
+                            r, d = run_one(c)
+                            b = build_model_case(c, r)
+                            if not b:
+                                return False
+                            return compare_case(c, r, d, drv.batch([b[0]])[0], b[1]) is not None
 
-                    def fails_text(t, sig=rv[0], lim=rkey[0]):
-                        c2 = dict(small, text=t)
-                        r = judge_read(c2, ci.run_impl(c2), spec.denote(t, lim))
-                        return r is not None and r[0] == sig
-
-                    try:
-                        t = shrink_text(small["text"], fails_text)
-                        if fails_text(t):
-                            small = dict(small, text=t)
-                    except Exception:  # noqa: BLE001
-                        pass
-                    chk.violation(rv[0], rv[1], {"case": small, "api_after_read": ri2.get("state0")})
-        verdict = judge_case(pure, ri, dens[i])
-        upto = len(ri["steps"])
-        if verdict is not None:
-            upto = verdict[0]
-            key = canon(verdict[1])
-            seen_sig[key] = seen_sig.get(key, 0) + 1
-            if seen_sig[key] > 2:
-                # the same signature was confirmed (re-run in this process) and reported already: count only
-                chk.count("violation-occurrences-not-rerun")
-                verdict = None
-        if verdict is not None:
-            ri2, dens2 = run_one(pure)  # confirm in this process before reporting
-            v2 = judge_case(pure, ri2, dens2)
-            if v2 is None or v2[1] != verdict[1]:
-                chk.count("flaky:violation-not-reproduced")
-                verdict = None
-            else:
-                j, sig, what = v2
-                upto = j
-                small = shrink_case(pure, sig, j) if len(chk.violations) < 3 else pure
-                r3, d3 = run_one(small)
-                v3 = judge_case(small, r3, d3)
-                if v3 is None or v3[1] != sig:
-                    small, v3 = pure, v2
-                step = r3["steps"][v3[0]] if v3 is not None and small is not pure else ri2["steps"][j]
-                chk.violation(sig, v3[2] if v3 else what, {"case": small, "written": step.get("text"), "api": step.get("api"), "raised": step["out"]})
-        if i in model:
-            chk.traces_validated += 1
-            nsteps = min(built[i][1], upto)
-            diff = compare_case(pure, ri, dens[i], model[i], nsteps)
-            if diff is not None and chk.dist.get("disagreement-confirmed", 0) >= 4:
-                chk.count("disagreement-occurrences-not-rerun")
-                diff = None
-            if diff is not None:
-                chk.disagreements_checked += 1
-                chk.count("disagreement:" + diff[1][:60])
-                ri2, dens2 = run_one(pure)
-                b2 = build_model_case(pure, ri2)
-                rm2 = drv.batch([b2[0]])[0] if b2 else None
-                diff2 = compare_case(pure, ri2, dens2, rm2, min(b2[1], upto)) if b2 else None
-                if diff2 is None:
-                    chk.count("flaky:disagreement-not-reproduced")
-                    continue
-                chk.count("disagreement-confirmed")
-                small = pure
-                if chk.dist.get("disagreement-confirmed", 0) <= 2:
-                    def differs(ops, pure=pure, last=pure["ops"][diff2[0]:diff2[0] + 1]):
-                        c = dict(pure, ops=ops + last)
-                        r, d = run_one(c)
-                        b = build_model_case(c, r)
-                        if not b:
-                            return False
-                        return compare_case(c, r, d, drv.batch([b[0]])[0], b[1]) is not None
-
-                    try:
-                        ops = shrink_list(pure["ops"][: diff2[0]], differs)
-                        small = dict(pure, ops=ops + pure["ops"][diff2[0]:diff2[0] + 1])
-                    except Exception:  # noqa: BLE001
-                        small = pure
-                chk.broken_obligation("correspondence", "U-celldata (Model/CellData.lean vs cell_modifier.py, importance.py, volume.py, universe_input.py, lattice_input.py, fill.py, cells.py, cell.py, mcnp_problem.py)",
-                                      {"step": diff2[0], "difference": diff2[1]}, small)
+                        try:
+                            ops = shrink_list(pure["ops"][: diff2[0]], differs)
+                            small = dict(pure, ops=ops + pure["ops"][diff2[0]:diff2[0] + 1])
+                        except Exception:  # noqa: BLE001
+                            small = pure
+                    chk.broken_obligation("correspondence", "U-celldata (Model/CellData.lean vs cell_modifier.py, importance.py, volume.py, universe_input.py, lattice_input.py, fill.py, cells.py, cell.py, mcnp_problem.py)",
+                                          {"step": diff2[0], "difference": diff2[1]}, small)
 
 
 def replay(chk, payload):
